@@ -64,12 +64,19 @@ struct M
 #else
 #define Y0
 #endif
-#if VF_Y > 1
+#ifndef VF_YT
+#define VF_YT (-1)       /* index (>= 1) of a CO_YIELD clause whose expression throws; the earlier yields are delivered first */
+#endif
+#if VF_Y > 1 && VF_YT == 1
+#define Y1 .CO_YIELD(thrower(y1))
+#elif VF_Y > 1
 #define Y1 .CO_YIELD(y1)
 #else
 #define Y1
 #endif
-#if VF_Y > 2
+#if VF_Y > 2 && VF_YT == 2
+#define Y2 .CO_YIELD(thrower(y2))
+#elif VF_Y > 2
 #define Y2 .CO_YIELD(y2)
 #else
 #define Y2
@@ -80,6 +87,31 @@ static int thrower(int v) { throw v; }
 static void drain(co<int> &c, int x, int y0, int y1, int y2, int rv, char const *)
 {
   int want[3] = {VF_EAGER ? y0 + x : y0, y1, y2};
+#if VF_YT >= 1
+  // the clause at index VF_YT throws when it is evaluated: the yields before it are produced first, then the coroutine
+  // ends with that exception, which surfaces where the result is taken
+  int k = 0;
+#if VF_EAGER
+  for (; k < VF_YT; ++k)
+  {
+    VCLAIM(20, !c.h.done() && c.h.promise().yields == (unsigned)k + 1 && c.h.promise().cur == want[k], "C20.yields_before_a_throwing_clause_are_delivered");
+    c.step();
+  }
+#else
+  VCLAIM(20, c.h.promise().yields == 0 && !c.h.promise().has_exc, "C20.lazy_coroutine_evaluates_nothing_at_the_call");
+  for (; k < VF_YT; ++k)
+  {
+    bool susp = c.step();
+    VCLAIM(20, susp && c.h.promise().yields == (unsigned)k + 1 && c.h.promise().cur == want[k], "C20.yields_before_a_throwing_clause_are_delivered");
+  }
+  c.step();
+#endif
+  VCLAIM(20, c.h.done() && c.h.promise().yields == VF_YT, "C20.coroutine_ends_at_the_throwing_clause");
+  bool threw = false; int ev = 0;
+  try { (void)c.await_resume(); } catch (int v) { threw = true; ev = v; }
+  VCLAIM(20, threw && ev == want[VF_YT], "C20.exception_of_a_throwing_clause_surfaces_where_the_result_is_taken");
+  (void)rv;
+#else
 #if VF_EAGER
   int k = 0;
   // an eagerly started coroutine is already suspended at its first yield (or done)
@@ -104,6 +136,7 @@ static void drain(co<int> &c, int x, int y0, int y1, int y2, int rv, char const 
   VCLAIM(20, !threw && got == rv, "C20.co_return_value_after_yields");
 #else
   VCLAIM(20, threw && ev == rv, "C20.exception_surfaces_where_the_result_is_taken");
+#endif
 #endif
 }
 
